@@ -23,6 +23,16 @@ CLAIMED = {
         text="TLC checks TreeSum, TreeMin, LeavesOK, PtrOK, MaxPOK, NewGetsMax and SampleOK over all interleavings of add/update/sample for capacities 1..5. Exact-mode executions of the real buffer (alpha=1, integer priorities, variates k/8 incl. stratum ends) are validated by TLC leaf by leaf, index by index and weight by weight (as exact fractions); inexact-mode executions (float priorities incl. 0, 1e-9, 1e8, repeated indices, alpha/beta grid, any batch size) are validated on the discrete state plus tolerance-classified facts.",
         note="Trusted: TLC, float->fraction conversion (limit_denominator 4096), tolerance 1e-9/1e-5 in inexact mode, driver-side stub of torch.rand during sample(). clear() is outside C11's quantifier.",
         design="4/C11"),
+    "C12": dict(
+        technique="TLA+ specs VecData.tla (N independent scripted environments, per-environment auto-reset) and VecEnv.tla (worker/parent protocol, all interleavings) model-checked by TLC + TLC trace validation of the real AsyncPettingZooVecEnv and PettingZooAutoResetParallelWrapper on scripted PettingZoo environments",
+        text="TLC checks OnlyDoneEnvResets / ObsIsCurrent / ResetRestoresAgents on the data model and StepEquivalence / SlotIsolation under every interleaving of worker progress (3 workers, episode lengths 1,2,3). Scripted environments (per-environment episode lengths, termination-only / truncation-only / mixed endings, early leaving agents, vector/image/dict/tuple observations, 4 dtypes, discrete and continuous actions, copy/no-copy) are run stand-alone, inside the real vector env and inside the auto-reset wrapper; TLC validates every returned observation id, reward, flag and info value position by position.",
+        note="Trusted: TLC; ScriptedEnv (validated against the spec in mode ref); projection decodes observation ids from returned arrays; values for agents absent from an environment are not compared.",
+        design="4/C12"),
+    "C13": dict(
+        technique="TLA+ spec VecEnv.tla (implementation-shaped async protocol with Raise/Kill faults and blocking conditions) model-checked by TLC for safety, deadlock (= hang) and liveness + TLC-simulated behaviours replayed as fault scripts on the real AsyncPettingZooVecEnv, outcomes validated by TLC (VecEnv_Trace)",
+        text="TLC explores every interleaving of client calls (incl. out-of-order use, timeouts, close in 4 blocking phases), worker progress and up to 2 raise/kill faults for 2 workers: MisuseRejected, ErrorTypeOK, TimeoutIsTimeout, CloseNeverRaises, NoWorkerLeft, no deadlock, and NoHang under fairness. Behaviours generated by tlc -simulate plus hand-written fault scripts are executed against the real class (sub-environments that raise / sleep / SIGKILL at a given command, 10 s watchdog); TLC validates each recorded execution, inferring worker progress.",
+        note="Trusted: TLC; fork-based scenario runner with watchdog (hang = no return within 10 s, injected sleeps 0.5 s, timeouts 0.15 s); BrokenPipe/ConnectionReset abstracted to one class. Exhaustive configs assume the client does not re-issue a wait after EOFError (that history is the recorded known finding F-C13-2).",
+        design="4/C13"),
 }
 NOT_YET = "check not built yet in this round (planned, see DESIGN.md section 4)"
 
